@@ -454,6 +454,14 @@ fn main() {
                 }
             }
         }
+        // explicit CHECK constraints stop almost every history at its first CREATE TABLE (DESIGN D11): keep them in 1 of 6
+        if !rng.chance(1, 6) {
+            for m in evo.iter_mut() {
+                for t in m.iter_mut() {
+                    t.constraints.retain(|k| !matches!(k, TableConstraint::Check { .. }));
+                }
+            }
+        }
         // keep the longest prefix of the evolution that satisfies A1–A7 (DESIGN.md §4.2)
         let mut keep = 0;
         for i in 0..evo.len() {
